@@ -2,6 +2,8 @@
 SPELL = {"a": ["/a", "/A", " /a ", "a", "/a/.", "//a", "/x/../a"], "b": ["/b/c", "/B/c", "b/c", "/b//c", "/b/./C "],
          "c": ["/a/b", "/A/B", "a/b/"]}
 
+FIXED = [1, 1, 1]      # (close unmaps, idle counts every consumer kind, every playlist request is an access)
+
 def gen_case(rng, nops, variant):
     ops, nstreams = [], 0
     for k in range(nops):
@@ -28,8 +30,47 @@ def gen_case(rng, nops, variant):
             ops.append([7, rng.randrange(nstreams), rng.random() < 0.4])
         elif r < 0.94:
             ops.append([8, rng.randrange(nstreams), rng.random() < 0.4])
+        elif r < 0.965:
+            ops.append([9, rng.randrange(nstreams), rng.choice([0, 0, 1, 2, 3, 5])])   # idle decision with a period (ticks)
+        elif r < 0.978:
+            ops.append([11, rng.randint(0, 4)])                                        # the clock
+        elif r < 0.986:
+            ops.append([12, rng.randrange(nstreams)])                                  # a finished HLS segment
+        elif r < 0.995:
+            ops.append([13, rng.randrange(nstreams)])                                  # playlist request
         else:
-            ops.append([9, rng.randrange(nstreams), rng.random() < 0.4])
+            ops.append([14, rng.randrange(nstreams), rng.randint(0, 4)])               # segment request
+    return [variant, ops]
+
+# HLS viewers only: a stream (usually with a playlist) is polled in every playlist state (0..4+ segments), segments
+# are fetched, the clock ticks, and the idle task runs with a period around the time since the last access
+def hls_shape(rng, variant):
+    sp = SPELL[rng.choice("abc")]
+    ops = [[0, rng.choice(sp), rng.random() < 0.9], [1, 0]]
+    p = rng.randint(1, 6)
+    for _ in range(rng.choice([0, 0, 0, 1, 2, 2, 3, 4, 5])):     # mostly not yet servable (fewer than 3 segments)
+        ops.append([12, 0])
+    for _ in range(rng.randint(2, 9)):
+        r = rng.random()
+        if r < 0.32:
+            ops.append([11, rng.randint(0, p)])
+        elif r < 0.52:
+            ops.append([13, 0])
+        elif r < 0.62:
+            ops.append([14, 0, rng.randint(0, 5)])
+        elif r < 0.68:
+            ops.append([12, 0])
+        elif r < 0.77:
+            ops.append([7, 0, rng.random() < 0.4])
+        elif r < 0.82:
+            ops.append([8, 0, rng.random() < 0.4])
+        else:
+            ops.append([9, 0, p if rng.random() < 0.7 else rng.randint(0, 6)])
+    # the decisive end: an access (or none), less or not less than a period of ticks, the decision, what lookup says
+    if rng.random() < 0.75:
+        ops.append(rng.choice([[13, 0], [13, 0], [14, 0, rng.randint(0, 5)]]))
+    ops.append([11, rng.choice([p - 1, p - 1, p, rng.randint(0, p + 1)])])
+    ops += [[9, 0, p], [4, rng.choice(sp)], [5, 0]]
     return [variant, ops]
 
 # the shape that matters to replacement: publisher A (consumers), replaced by B (and C) under another spelling,
@@ -70,10 +111,10 @@ def reg_shape(rng):
     elif r < 0.92:
         ops.append([9, nb, False])
     if rng.random() < 0.3:                   # a stray operation somewhere
-        extra = gen_case(rng, 1, [1, 1])[1][0]
+        extra = gen_case(rng, 1, FIXED)[1][0]
         if extra[0] != 0 and (len(extra) < 2 or not isinstance(extra[1], int) or extra[1] <= nb):
             ops.insert(rng.randrange(2, len(ops) + 1), extra)
-    return [[1, 1], ops]
+    return [FIXED, ops]
 
 def run(ck):
     if not ck.prepare():
@@ -84,8 +125,12 @@ def run(ck):
         v, ops = reg_shape(rng)
         g = next((k for k, sp in SPELL.items() if ops[0][1] in sp), "a")
         return [v, ops + [[4, rng.choice(SPELL[g])], [5, 0], [6, 0]]]       # what lookup, counts and listing say afterwards
-    raw = [gen_case(rng, rng.randint(4, 40 if ck.thorough else 14), [1, 1]) if rng.random() < 0.75 else shaped()
-           for _ in range(3 * n)]
+    def one():
+        r = rng.random()
+        if r < 0.6:
+            return gen_case(rng, rng.randint(4, 40 if ck.thorough else 14), FIXED)
+        return shaped() if r < 0.8 else hls_shape(rng, FIXED)
+    raw = [one() for _ in range(3 * n)]
     import vlib
     wf = vlib.run_driver("C05", "C05_wf", [vlib.vs(c) for c in raw])
     cases = [c for c, w in zip(raw, wf) if w == "1"][:n]     # only live streams are registered
@@ -93,8 +138,9 @@ def run(ck):
     ck.stream("histories", cases, "C05_run", "C05", "C05_ok",
               nontrivial=lambda c: sum(1 for o in c[1] if o[0] == 1) >= 2 and any(o[0] == 4 for o in c[1]),
               sig=lambda c, e, o: "registry-history")
-    return ck.finish(rule="75% random, 25% replacement-shaped (publisher replaced under another spelling, old publisher leaves late, "
-                          "registry-borne end, then lookup / count / list) histories of new/regist/unregist/close/get/count/list/attach/detach/idle-tick/unregist-all over three paths in "
+    return ck.finish(rule="60% random, 20% HLS-shaped (a stream with a playlist polled in every playlist state, segment fetches, clock "
+                          "ticks, the idle decision with a period around the time since the last access, then lookup / count), 20% replacement-shaped (publisher replaced under another spelling, old publisher leaves late, "
+                          "registry-borne end, then lookup / count / list) histories of new/regist/unregist/close/get/count/list/attach/detach/idle-decision(period)/unregist-all/clock-tick/hls-segment/playlist-request/segment-request over three paths in "
                           "several spellings on the real media package (only live streams are registered: hist_wf); "
                           "non-trivial = at least two registrations and one lookup; the observation ends with the per-stream vector "
                           "(live, successful attaches, Consumer.Close calls recorded by the attached consumers)")
